@@ -10,31 +10,35 @@
    runs stay equal (AllEqual); scaled differences stay integral (no rounding hidden in the model).
    They also resolve to the same edge arrays (EdgesAgree, PlacementAgrees: origin centred per axis from that
    axis' own cell count).
+   Placement through a centre relative to the domain centre is independent of where a description sits in space
+   (CentrePlacementAgrees).
    Negative instances: reference spacing without the division by the Courant number; z origin of the uniform
-   policy computed from the y cell count.                       *)
+   policy computed from the y cell count; domain-centre term added only for non-uniform grids.                       *)
 EXTENDS GridEquivDefs
 
 CONSTANTS MaxN, MaxD, MaxT, Variant, Volumes   \* Volumes: set of 3-D shapes for the edge/origin rule
 Descs == {"uniform", "rect", "quasi"}
-VARIABLES n, d, shp, ini, E, H, pc, t
-vars == << n, d, shp, ini, E, H, pc, t >>
+\* domain centres per description (units of d): all on the origin / each somewhere else
+Centres == { [ g \in Descs |-> 0 ], [ g \in Descs |-> IF g = "uniform" THEN 0 ELSE IF g = "rect" THEN 3 ELSE -4 ] }
+VARIABLES n, d, shp, cen, ini, E, H, pc, t
+vars == << n, d, shp, cen, ini, E, H, pc, t >>
 
 W == EqualWidths(n, d)
 Ref == RefSpacing(d, Variant)
 Mat(k) == [ i \in 1..k |-> 1 + (i % 2) ]
 F0(k, i0, f, ft) == [ i \in 1..k |-> IF i0 = 0 THEN i + (IF ft = "H" THEN 2 ELSE 0) ELSE IF f = ft /\ i = i0 THEN 1 ELSE 0 ]
 
-Init == /\ n \in 2..MaxN /\ d \in 1..MaxD /\ shp \in Volumes
+Init == /\ n \in 2..MaxN /\ d \in 1..MaxD /\ shp \in Volumes /\ cen \in Centres
         /\ ini \in { << "dense", 0 >> } \cup ({"E", "H"} \X (1..n))
         /\ E = [ g \in Descs |-> F0(n, ini[2], ini[1], "E") ]
         /\ H = [ g \in Descs |-> F0(n, ini[2], ini[1], "H") ]
         /\ pc = "E" /\ t = 0
 UpdE == /\ pc = "E" /\ t < MaxT
         /\ E' = [ g \in Descs |-> StepE1(E[g], H[g], Mat(n), g, W, Ref) ]
-        /\ pc' = "H" /\ UNCHANGED << n, d, shp, ini, H, t >>
+        /\ pc' = "H" /\ UNCHANGED << n, d, shp, cen, ini, H, t >>
 UpdH == /\ pc = "H"
         /\ H' = [ g \in Descs |-> StepH1(E[g], H[g], g, W, Ref) ]
-        /\ pc' = "E" /\ t' = t + 1 /\ UNCHANGED << n, d, shp, ini, E >>
+        /\ pc' = "E" /\ t' = t + 1 /\ UNCHANGED << n, d, shp, cen, ini, E >>
 Next == UpdE \/ UpdH
 Spec == Init /\ [][Next]_vars
 
@@ -47,6 +51,11 @@ EdgesAgree == \A g \in Descs : \A a \in 1..3 : Edges2(g, shp, a, d, Variant) = E
 PlacementAgrees ==
     \A g \in Descs : \A a \in 1..3 : \A i \in 0..shp[a] :
         NearestEdge(Edges2(g, shp, a, d, Variant), shp[a], Edges2("rect", shp, a, d, "ok")[i]) = i
+\* every description may be centred somewhere else (cen[g], in units of d); an object requested through its centre
+\* RELATIVE to the domain centre lands on the intended cells in all of them
+CentrePlacementAgrees ==
+    \A g \in Descs : \A a \in 1..3 : \A size \in 1..shp[a] : \A lo \in 0..(shp[a] - size) :
+        PlaceByCentre(ShiftedEdges2(g, shp, a, d, 2 * d * cen[g], "ok"), shp[a], size, RelCentre2(lo, size, shp[a], d), Variant) = lo
 ScaleIsOne == \A i \in 1..n : IsOne(ScaleFwd(W, Ref)[i]) /\ IsOne(ScaleBwd(W, Ref)[i])
 VolumesQ == { <<2,4,6>>, <<4,2,2>> }
 VolumesT == { <<2,4,6>>, <<4,2,2>>, <<6,8,10>>, <<2,2,2>>, <<4,6,2>> }
